@@ -207,3 +207,41 @@ Proof.
   - unfold wf_ext, u32, two32. lia.
   - unfold u32, two32. lia.
 Qed.
+
+(* the writer's queue: once a choke is queued no piece that was waiting is sent any more, whatever was
+   queued; and the number of waiting pieces never exceeds the configured bound *)
+Lemma choke_flushes_queued_pieces maxq fast q : existsb is_piece (wq_op maxq fast q Choke) = false.
+Proof.
+  cbn [wq_op]. rewrite existsb_app. cbn. rewrite orb_false_r.
+  induction q as [|m r IH]; [reflexivity|]. cbn [filter]. destruct (is_piece m) eqn:E; cbn [negb]; [exact IH|].
+  cbn [existsb]. rewrite E. exact IH.
+Qed.
+
+Lemma remove_first_piece_count i b l q : count_pieces (remove_first_piece i b l q) <= count_pieces q.
+Proof.
+  unfold count_pieces. induction q as [|m r IH]; [cbn; lia|].
+  destruct m; cbn [remove_first_piece filter is_piece]; try exact IH.
+  destruct ((i0 =? i) && (b0 =? b) && (zlen data =? l)); cbn [filter is_piece]; rewrite ?zlen_cons; lia.
+Qed.
+
+Lemma wq_op_bounded maxq fast q m : 0 <= maxq -> count_pieces q <= maxq -> count_pieces (wq_op maxq fast q m) <= maxq.
+Proof.
+  intros Hq H. assert (App : forall a b, count_pieces (a ++ b) = count_pieces a + count_pieces b).
+  { intros a b0. unfold count_pieces. rewrite filter_app, zlen_app. reflexivity. }
+  destruct m; cbn [wq_op]; try (rewrite App; cbn; lia).
+  - (* choke *) rewrite App. cbn.
+    assert (Z0 : count_pieces (filter (fun x => negb (is_piece x)) q) = 0).
+    { clear H. unfold count_pieces. induction q as [|x r IH]; [reflexivity|]. cbn [filter]. destruct (is_piece x) eqn:E; cbn [negb]; [exact IH|].
+      cbn [filter]. rewrite E. exact IH. }
+    rewrite Z0. unfold count_pieces. cbn. lia.
+  - (* cancel *) pose proof (remove_first_piece_count i b l q). lia.
+  - (* piece *) destruct (Z.leb_spec maxq (count_pieces q)) as [E|E]; [destruct fast; [rewrite App; unfold count_pieces at 2; cbn; lia|lia]|].
+    rewrite App. unfold count_pieces at 2. cbn. lia.
+Qed.
+
+Theorem writer_queue_bounded maxq fast ms : 0 <= maxq -> count_pieces (fold_left (wq_op maxq fast) ms []) <= maxq.
+Proof.
+  intro Hq. assert (G : forall q, count_pieces q <= maxq -> count_pieces (fold_left (wq_op maxq fast) ms q) <= maxq).
+  { induction ms as [|m r IH]; intros q H; [exact H|]. cbn. apply IH. apply wq_op_bounded; assumption. }
+  apply G. unfold count_pieces. cbn. lia.
+Qed.
